@@ -69,7 +69,7 @@ CHECKS = {
 }
 
 # checks that are finished, reviewed and silent on the (repaired) unchanged tree
-READY = {"C01", "C02", "C03", "C04", "C05", "C06", "C07", "C08", "C09", "C10", "C12", "C13", "C14", "C15", "C17", "C18", "C20"}
+READY = {"C%02d" % i for i in range(1, 21)}
 
 NOT_BUILT = "check not built yet in this round (work in progress; see DESIGN.md §6 build order)"
 
